@@ -235,7 +235,238 @@ def gridAccumulate [OfNat α 1] (g : FlowGrid) (fdNodata : α) (field : Option (
     | .error e => .error e
     | .ok s => .ok (s, ⟨f.nrows, f.ncols, s.acc, f.nodata⟩)
 
+/-! ### `nprint`: the progress lines of the outer loop
+
+`if(nprint > 0 && i%nprint == 0) fprintf(...)` — the only use of `nprint`. The guard `nprint > 0` (a `fix:` commit)
+keeps `i % 0` from being evaluated. The loop below is `accLoop` with that branch in place and a count of the lines
+printed; the result does not depend on `nprint` (`Props`: `cAccumulateP_result`), for any integer, 0 and negatives
+included. -/
+
+/-- the branch `nprint > 0 && i % nprint == 0` of the source cell `i` -/
+def progressAt (nprint : Int) (i : Nat) : Bool := decide (0 < nprint) && decide ((i : Int).tmod nprint = 0)
+
+def accLoopP (g : FlowGrid) (field : Array α) (nodata : α) (fuel : Nat) (nprint : Int) :
+    List Nat → Array α × Nat → Except Err (Array α × Nat)
+  | [], st => .ok st
+  | i :: rest, (acc, lines) =>
+    let lines' := if progressAt nprint i then lines + 1 else lines
+    match walk g field nodata i fuel (i : Int) acc with
+    | .error e => .error e
+    | .ok acc' => accLoopP g field nodata fuel nprint rest (acc', lines')
+
+/-- `c_accumulate` with its `nprint` argument: the result and the number of progress lines printed -/
+def cAccumulateP (g : FlowGrid) (nprint maxCells : Int) (nodata : α) (field acc0 : Array α) :
+    Except Err (Array α × Nat) :=
+  if maxCells < 1 then .error .badMaxCells
+  else if g.nrows < 1 ∨ g.nrows < 1 then .error .badDims
+  else accLoopP g field nodata (fuelOf maxCells) nprint (List.range g.ntot.toNat) (acc0, 0)
+
 end Walk
+
+/-! ### histories: what a caller holds between calls
+
+`grid.accumulate` keeps nothing between calls, but the grid objects it is given and the one it returns are mutable and
+can be the same object (the result of one call fed back as the field of the next). `Sess` is that picture: float grid
+objects live on a heap and are designated by reference; the flow-direction grid is held by value (the wrapper never
+returns it nor keeps a reference to it). `step` is one operation of the caller — a call, or an edit of one of the
+objects through the public `Grid` interface (`data` setter with its shape guard, `data.flat[i] = v` / `grid[i] = v`,
+`nodata` setter, `clone`) — and answers `rejected` exactly when the real operation raises. Values written are the
+values the object holds afterwards (the dtype cast of numpy is external). -/
+
+structure Sess (α : Type) where
+  fd : FlowGrid
+  /-- `flowdir.nodata` as a double (no-data value of the default unit field, a clone of `flowdir`) -/
+  fdNodata : α
+  heap : Array (FieldGrid α)
+  /-- reference of the grid passed as `to_accumulate` (`none`: the default) -/
+  field : Option Nat
+  /-- reference of the grid returned by the last successful call -/
+  res : Option Nat
+  /-- `max_accumulated_cells` passed with every call -/
+  cap : Int
+
+inductive Op (α : Type) where
+  /-- `res = accumulate(flowdir, field, max_accumulated_cells=cap)` -/
+  | call
+  | setCap (m : Int)
+  /-- `flowdir.data.flat[i] = code` (IndexError outside `0 .. n-1`; numpy's negative indices are not used) -/
+  | fdSetCell (i : Int) (code : Int)
+  /-- `flowdir.data = array` (ValueError unless the array has the shape of the grid) -/
+  | fdAssign (nrows ncols : Int) (data : Array Int)
+  | fdSetNodata (v : α)
+  /-- `flowdir = flowdir.clone()` / deepcopy / pickle round trip: an equal object (held by value here) -/
+  | fdClone
+  /-- `field.data.flat[i] = v` / `field[i] = v` -/
+  | fSetCell (i : Int) (v : α)
+  /-- `field.data = array` -/
+  | fAssign (nrows ncols : Int) (data : Array α)
+  | fSetNodata (v : α)
+  /-- a new grid object becomes the field -/
+  | fNew (f : FieldGrid α)
+  /-- `to_accumulate=None` from now on -/
+  | fDrop
+  /-- `field = field.clone()`: a fresh object with equal contents -/
+  | fClone
+  /-- the caller edits the grid returned by the last call -/
+  | rSetCell (i : Int) (v : α)
+  | rFill (v : α)
+  | rSetNodata (v : α)
+  /-- the grid returned by the last call becomes the field (the same object) -/
+  | feedBack
+
+inductive Reply (α : Type) where
+  | done
+  /-- the operation raised; nothing has changed -/
+  | rejected
+  | result (r : FieldGrid α)
+  deriving DecidableEq
+
+section Hist
+variable {α : Type}
+
+/-- a `Grid` object is well-formed: `_data` has `nrows x ncols` entries (constructor, `data` setter) -/
+def FieldGrid.wellShaped (f : FieldGrid α) : Bool := decide (f.data.size = (f.nrows * f.ncols).toNat)
+
+/-- `grid.data.flat[i] = v` -/
+def FieldGrid.setCell (f : FieldGrid α) (i : Int) (v : α) : Option (FieldGrid α) :=
+  if 0 ≤ i ∧ i.toNat < f.data.size then some { f with data := f.data.setIfInBounds i.toNat v } else none
+
+/-- `grid.data = array`: the shape guard of the `data` setter -/
+def FieldGrid.assign (f : FieldGrid α) (nrows ncols : Int) (data : Array α) : Option (FieldGrid α) :=
+  if nrows = f.nrows ∧ ncols = f.ncols ∧ data.size = (nrows * ncols).toNat then some { f with data := data } else none
+
+/-- the grid object the reference `field` designates -/
+def Sess.fieldGrid (s : Sess α) : Option (FieldGrid α) := s.field.bind fun q => s.heap[q]?
+def Sess.resGrid (s : Sess α) : Option (FieldGrid α) := s.res.bind fun q => s.heap[q]?
+
+/-- apply an edit to the object behind a reference -/
+def Sess.editAt (s : Sess α) (ref : Option Nat) (e : FieldGrid α → Option (FieldGrid α)) : Sess α × Reply α :=
+  match ref with
+  | none => (s, .rejected)
+  | some q =>
+    match s.heap[q]? with
+    | none => (s, .rejected)
+    | some f =>
+      match e f with
+      | none => (s, .rejected)
+      | some f' => ({ s with heap := s.heap.setIfInBounds q f' }, .done)
+
+section Step
+variable [Add α] [OfNat α 1]
+
+def step (s : Sess α) : Op α → Sess α × Reply α
+  | .call =>
+    match gridAccumulate s.fd s.fdNodata s.fieldGrid s.cap with
+    | .error _ => (s, .rejected)
+    | .ok (st, r) =>
+      -- the memory of the field after the kernel has run is written back to the field object
+      -- (`Props`: it is what it was), the clone becomes a new object
+      let heap := match s.field, s.fieldGrid with
+        | some q, some f => s.heap.setIfInBounds q { f with data := st.field }
+        | _, _ => s.heap
+      ({ s with heap := heap.push r, res := some heap.size }, .result r)
+  | .setCap m => ({ s with cap := m }, .done)
+  | .fdSetCell i code =>
+    if 0 ≤ i ∧ i.toNat < s.fd.flowdir.size then
+      ({ s with fd := { s.fd with flowdir := s.fd.flowdir.setIfInBounds i.toNat code } }, .done)
+    else (s, .rejected)
+  | .fdAssign nrows ncols data =>
+    if nrows = s.fd.nrows ∧ ncols = s.fd.ncols ∧ data.size = (nrows * ncols).toNat then
+      ({ s with fd := { s.fd with flowdir := data } }, .done)
+    else (s, .rejected)
+  | .fdSetNodata v => ({ s with fdNodata := v }, .done)
+  | .fdClone => (s, .done)
+  | .fSetCell i v => s.editAt s.field fun f => f.setCell i v
+  | .fAssign nrows ncols data => s.editAt s.field fun f => f.assign nrows ncols data
+  | .fSetNodata v => s.editAt s.field fun f => some { f with nodata := v }
+  | .fNew f =>
+    if f.wellShaped then ({ s with heap := s.heap.push f, field := some s.heap.size }, .done) else (s, .rejected)
+  | .fDrop => ({ s with field := none }, .done)
+  | .fClone =>
+    match s.fieldGrid with
+    | none => (s, .rejected)
+    | some f => ({ s with heap := s.heap.push f, field := some s.heap.size }, .done)
+  | .rSetCell i v => s.editAt s.res fun f => f.setCell i v
+  | .rFill v => s.editAt s.res fun f => some { f with data := Array.replicate f.data.size v }
+  | .rSetNodata v => s.editAt s.res fun f => some { f with nodata := v }
+  | .feedBack =>
+    match s.res with
+    | none => (s, .rejected)
+    | some q => ({ s with field := some q }, .done)
+
+/-- a whole history: the state reached and the answers, in order -/
+def run (s : Sess α) : List (Op α) → Sess α × List (Reply α)
+  | [] => (s, [])
+  | op :: rest =>
+    let (s1, r) := step s op
+    let (s2, rs) := run s1 rest
+    (s2, r :: rs)
+
+/-- what the kernel receives as `to_accumulate` and `nodata_to_accumulate` in the state `s` -/
+def Sess.input (s : Sess α) : Array α × α :=
+  match s.fieldGrid with
+  | some f => (f.data, f.nodata)
+  | none => (Array.replicate s.fd.flowdir.size (1 : α), s.fdNodata)
+
+end Step
+
+end Hist
+
+/-- a value type whose addition is followed by a rounding: `a + b := rnd (a.val + b.val)`. With `rnd` the rounding
+to the nearest double this is IEEE addition; the generic kernel instantiated at `Rounded α rnd` is the kernel
+computing in rounded arithmetic, and the `[Add α]` theorems (`accumulate_eq_fold` …) apply to it verbatim. -/
+structure Rounded (α : Type) (rnd : α → α) where
+  val : α
+  deriving DecidableEq
+
+instance {α : Type} [Add α] {rnd : α → α} : Add (Rounded α rnd) := ⟨fun a b => ⟨rnd (a.val + b.val)⟩⟩
+instance {α : Type} [OfNat α 1] {rnd : α → α} : OfNat (Rounded α rnd) 1 := ⟨⟨1⟩⟩
+
+/-! ### binary floating point as a rounding of exact rationals
+
+`rndBits p` rounds a rational to `p` significant bits (nearest, ties to even, unbounded exponent range); the kernel at
+`Rounded Rat (rndBits 53)` is the kernel in IEEE binary64 arithmetic away from overflow and subnormal numbers. The driver
+runs it next to the `Float` instance (`accr` request: the two must agree bit for bit), and `Props` proves the hypotheses
+of the rounded-arithmetic theorems for it (`rndBits_err`, `rndBits_int` in `Lemmas/C11Round.lean`). -/
+
+/-- `2^k` for an integer exponent -/
+def pow2 (k : Int) : Rat :=
+  if 0 ≤ k then ((2 ^ k.toNat : Nat) : Rat) else 1 / ((2 ^ (-k).toNat : Nat) : Rat)
+
+def absR (x : Rat) : Rat := if x < 0 then -x else x
+
+/-- an exponent `k` with `2^k ≤ |x|`, looked for next to `log2 |num| - log2 den` (`none` is never met for `x ≠ 0`:
+observed by the driver, not needed by the proofs — `rndBits` then returns `x` itself) -/
+def expOf? (x : Rat) : Option Int :=
+  let k0 : Int := (Nat.log2 x.num.natAbs : Int) - (Nat.log2 x.den : Int)
+  if pow2 k0 ≤ absR x then some k0 else if pow2 (k0 - 1) ≤ absR x then some (k0 - 1) else none
+
+/-- nearest integer, ties to even -/
+def roundHalfEven (y : Rat) : Int :=
+  let f := (y + 1 / 2).floor
+  if ((f : Int) : Rat) = y + 1 / 2 ∧ f % 2 = 1 then f - 1 else f
+
+/-- rounding to `p` significant bits, nearest, ties to even, unbounded exponent range: IEEE binary64 is `p = 53`
+(away from overflow and subnormal numbers) -/
+def rndBits (p : Nat) (x : Rat) : Rat :=
+  if x = 0 then 0
+  else match expOf? x with
+    | none => x
+    | some k =>
+      let s := pow2 (k - (p : Int) + 1)
+      ((roundHalfEven (x / s) : Int) : Rat) * s
+
+/-- the exact value of a finite double -/
+def ratOfFloat? (x : Float) : Option Rat :=
+  let bits : Nat := x.toBits.toNat
+  let neg : Bool := bits >>> 63 == 1
+  let e : Nat := (bits >>> 52) &&& 0x7ff
+  let m : Nat := bits &&& (2 ^ 52 - 1)
+  if e == 0x7ff then none
+  else
+    let mag : Rat :=
+      if e == 0 then ((m : Nat) : Rat) * pow2 (-1074) else (((m + 2 ^ 52 : Nat)) : Rat) * pow2 ((e : Int) - 1075)
+    some (if neg then -mag else mag)
 
 /-! ### specification vocabulary (computable, used by the theorems and by `example`s) -/
 
